@@ -412,6 +412,10 @@ def count_fields(items, sub_args=None):
             if inner is None:
                 return None
             tot = tot + inner * it[2]
+        elif it[0] == "done":
+            x = it[1]
+            if x[0] in ("fmt", "join") or (x[0] == "fv" and (isinstance(x[2], S) or x[1] in (None, "", "s"))):
+                return None             # text produced elsewhere sits in the template: it may hold fields of its own
     return tot
 
 
@@ -1279,6 +1283,7 @@ class Engine:
         self.locals = set()
         self.depth = 0
         self.nested = {n.name: n for n in fn.body if isinstance(n, ast.FunctionDef)}
+        self.classes = {q: c for q, c in getattr(mod, "classes", {}).items() if "." not in q}       # module-level classes: small value objects / helpers
         for n in walk_no_nested(fn):
             if isinstance(n, ast.FunctionDef):
                 self.nested.setdefault(n.name, n)
@@ -1491,19 +1496,105 @@ class Engine:
                     return None
         if isinstance(call.func, ast.Name):
             nm = call.func.id
-            return self._resolve_callable(st.env.get(nm), nm if nm not in st.env else None, st)
+            v = st.env.get(nm)
+            if v is None and nm not in self.locals and nm in self.classes:
+                return self._ctor(nm)
+            if isinstance(v, tuple) and v[:1] == ("class",) and v[1] in self.classes:
+                return self._ctor(v[1])
+            if isinstance(v, tuple) and v[:1] == ("obj",):
+                m_ = self._method(v[1], "__call__")
+                return (m_[0], (v,), {}, None) if m_ is not None and m_[1] == "method" else None
+            return self._resolve_callable(v, nm if nm not in st.env else None, st)
+        if isinstance(call.func, ast.Attribute) and not any(isinstance(x, (ast.NamedExpr, ast.Lambda, ast.ListComp, ast.GeneratorExp, ast.DictComp, ast.SetComp, ast.IfExp))
+                                                          for x in ast.walk(call.func.value)) \
+                and (self.classes or False):
+            base = call.func.value
+            if isinstance(base, ast.Name) and base.id not in st.env and base.id not in self.locals and base.id in self.classes:
+                owner = ("class", base.id)
+            elif isinstance(base, ast.Name) and base.id not in st.env:
+                return None
+            else:
+                try:
+                    owner = self.ev(base, st)
+                except Unsupported:
+                    return None
+            if isinstance(owner, tuple) and owner[:1] in (("class",), ("obj",)) and owner[1] in self.classes:
+                m_ = self._method(owner[1], call.func.attr)
+                if m_ is None:
+                    return None
+                fnode, kind = m_
+                if kind == "static":
+                    return (fnode, (), {}, None)
+                if kind == "class":
+                    return (fnode, (("class", owner[1]),), {}, None)
+                return (fnode, (owner,), {}, None) if owner[0] == "obj" else (fnode, (), {}, None)
         return None
+
+    def _method(self, q, name):
+        """(function node, 'method' | 'static' | 'class') of a method defined in the body of class q"""
+        c = self.classes.get(q)
+        if c is None:
+            return None
+        for n in c.body:
+            if isinstance(n, ast.FunctionDef) and n.name == name:
+                decos = {dotted(d) for d in n.decorator_list}
+                return n, ("static" if "staticmethod" in decos else "class" if "classmethod" in decos else "method")
+        return None
+
+    def _ctor(self, q):
+        m_ = self._method(q, "__init__")
+        return (m_[0] if m_ is not None else None, (), {}, None, ("ctor", q))
+
+    def _construct_plain(self, call, q, st):
+        """an object of a class without __init__ (NamedTuple, dataclass): its annotated attributes, in order, from the arguments"""
+        c = self.classes[q]
+        names, defaults = [], {}
+        for n in c.body:
+            if isinstance(n, ast.AnnAssign) and isinstance(n.target, ast.Name):
+                names.append(n.target.id)
+                if n.value is not None:
+                    defaults[n.target.id] = n.value
+        if not names:
+            raise Unsupported(f"class {q}: no annotated attributes")
+        vals = {}
+        pos = []
+        for a in call.args:
+            v = self.ev(a, st)
+            if isinstance(v, tuple) and v[:1] == ("star",) and isinstance(v[1], tuple) and v[1][:1] == ("tuple",):
+                pos.extend(v[1][1])
+            elif isinstance(v, tuple) and v[:1] == ("star",):
+                raise Unsupported(f"class {q}: starred argument")
+            else:
+                pos.append(v)
+        if len(pos) > len(names):
+            raise Unsupported(f"class {q}: too many arguments")
+        for nm, v in zip(names, pos):
+            vals[nm] = v
+        for k in call.keywords:
+            if k.arg is None:
+                raise Unsupported(f"class {q}: ** argument")
+            vals[k.arg] = self.ev(k.value, st)
+        for nm in names:
+            if nm not in vals:
+                if nm not in defaults:
+                    raise Unsupported(f"class {q}: attribute {nm} not given")
+                vals[nm] = self.ev(defaults[nm], State())
+        return ("obj", q, tuple((nm, vals[nm]) for nm in names))
 
     def inlinable(self, call, st):
         """the function a call runs, when its body is followed (a generator function is not run by its call)"""
         r = self._callee(call, st)
-        if r is None or _is_generator(r[0]) or (self.follow_if is not None and not self.follow_if(r[0])):
+        if r is None:
+            return None
+        if r[0] is None:
+            return r if len(r) > 4 else None          # a constructor without __init__
+        if _is_generator(r[0]) or (self.follow_if is not None and not self.follow_if(r[0])):
             return None
         return r
 
     def _generator_of(self, call, st):
         r = self._callee(call, st)
-        if r is None or not _is_generator(r[0]) or (self.follow_if is not None and not self.follow_if(r[0])):
+        if r is None or r[0] is None or len(r) > 4 or not _is_generator(r[0]) or (self.follow_if is not None and not self.follow_if(r[0])):
             return None
         return r
 
@@ -1518,7 +1609,7 @@ class Engine:
 
     def _bind(self, call, target, st):
         """parameter values of a call: positional (bound ones first), starred concrete lists, keywords, defaults"""
-        fnode, pre_args, pre_kws, key = target
+        fnode, pre_args, pre_kws, key = target[:4]
         args = list(pre_args)
         for a in call.args:
             v = self.ev(a, st)
@@ -1555,7 +1646,14 @@ class Engine:
 
     def inline(self, call, target, st):
         """run the callee's body on the argument values; returns [(caller state, returned value)] - one per path of the callee"""
-        fnode, _, _, key = target
+        fnode, _, _, key = target[:4]
+        ctor = target[4][1] if len(target) > 4 else None
+        if ctor is not None and fnode is None:
+            c = State(st.env, st.facts, st.events, st.loops, st.frames)
+            c.pre = dict(st.pre)
+            return [(c, self._construct_plain(call, ctor, st))]
+        if ctor is not None:
+            target = (fnode, (("obj", ctor, ()),), target[2], key)          # __init__(self, ...): what it stores in self.* makes the object
         bound, args, kws = self._bind(call, target, st)
         env = dict(self._closure_env(fnode, key, st))
         env.update(bound)
@@ -1584,6 +1682,10 @@ class Engine:
                 o.events = [e for e in o.events if e is not rets[-1]] if rets else o.events
                 c.events = list(o.events)
                 c.status = "run"
+            if ctor is not None and o.status in ("run", "return"):
+                selfname = (fnode.args.posonlyargs + fnode.args.args)[0].arg
+                val = ("obj", ctor, tuple((k_[len(selfname) + 1:], v_) for k_, v_ in o.env.items()
+                                          if isinstance(k_, str) and k_.startswith(selfname + ".") and "." not in k_[len(selfname) + 1:]))
             elif o.status == "raise":
                 c.status = "raise"
             elif o.status in ("continue", "break", "genreturn"):
@@ -1620,7 +1722,7 @@ class Engine:
     def _for_generator(self, node, target, st):
         """`for T in gen(args): BODY` with `gen` a generator function of the module: the generator's body is run in the caller's frame (its
         names made unique) and every `yield v` becomes `T = v; BODY`.  None when the generator uses a construct this cannot express."""
-        fnode, _, _, key = target
+        fnode, _, _, key = target[:4]
         if self.depth >= self.MAX_DEPTH:
             return None
         self.genseq = getattr(self, "genseq", 0) + 1
@@ -1891,7 +1993,18 @@ class Engine:
             self.emit(st, "assign", node, name=target.id, value=v)
         elif isinstance(target, (ast.Tuple, ast.List)):
             n = len(target.elts)
-            if isinstance(v, tuple) and v and v[0] == "tuple" and len(v[1]) == n:
+            if isinstance(v, tuple) and v[:1] == ("obj",):
+                v = ("tuple", tuple(x for _, x in v[2]))          # a, b = namedtuple
+            stars = [i for i, t in enumerate(target.elts) if isinstance(t, ast.Starred)]
+            if isinstance(v, tuple) and v and v[0] == "tuple" and len(stars) == 1 and len(v[1]) >= n - 1 \
+                    and not any(isinstance(x, tuple) and x[:1] == ("star",) for x in v[1]):
+                i, m_ = stars[0], len(v[1]) - (n - 1)          # a, b, *rest = (x, y, z, w)
+                for t, x in zip(target.elts[:i], v[1][:i]):
+                    self.assign(t, x, st, node)
+                self.assign(target.elts[i].value, ("tuple", tuple(v[1][i:i + m_])), st, node)
+                for t, x in zip(target.elts[i + 1:], v[1][i + m_:]):
+                    self.assign(t, x, st, node)
+            elif isinstance(v, tuple) and v and v[0] == "tuple" and len(v[1]) == n:
                 for t, x in zip(target.elts, v[1]):
                     self.assign(t, x, st, node)
             else:
@@ -2012,7 +2125,8 @@ class Engine:
                 if isinstance(n, ast.Name) and isinstance(n.ctx, ast.Store):
                     names.add(n.id)
                 if isinstance(n, ast.Call) and isinstance(n.func, ast.Attribute) and isinstance(n.func.value, ast.Name) and \
-                        n.func.attr in ("append", "extend", "insert", "pop", "add", "update", "sort", "clear", "remove"):
+                        n.func.attr in ("append", "extend", "insert", "pop", "add", "update", "sort", "clear", "remove", "popleft", "appendleft", "extendleft",
+                                        "discard", "popitem", "setdefault", "reverse", "rotate"):
                     names.add(n.func.value.id)
                 if isinstance(n, (ast.Assign, ast.AugAssign)) and isinstance(n.targets[0] if isinstance(n, ast.Assign) else n.target, ast.Subscript):
                     t = n.targets[0] if isinstance(n, ast.Assign) else n.target
@@ -2330,6 +2444,11 @@ class Engine:
                 _, lo_, hi_, step_ = wev.d["iter"]
                 if (ival(step_) == 1 or _divisible(lin(hi_) - lin(lo_), ival(step_))) and proves_ge0(lin(hi_) - lin(lo_), post.facts):
                     post.env[wev.d["counter"]] = lin(hi_)
+            # ... and one that counts down in steps of k while c >= b, from c0 >= b - k, ends with c0 - k * floor((c0 - b + k) / k)  (c0 mod k for b = k)
+            if wev is not None and wev.d.get("down"):
+                nm_, c0, b_, k_ = wev.d["down"]
+                if proves_ge0(c0 - b_ + k_, post.facts):
+                    post.env[nm_] = c0 - floordiv(c0 - b_ + k_, k_).scale(k_)
             self.emit(post, "loopexit", node, loop=lid, env={nm: post.env.get(nm) for nm in names})
             if node.orelse:
                 outs.extend(self.block(node.orelse, [post]))
@@ -2346,23 +2465,38 @@ class Engine:
         if not normal:
             return
         for nm in sorted(names):
-            symv = lin(("sym", f"{nm}@L{lid}"))
+            sym = ("sym", f"{nm}@L{lid}")
+            symv = lin(sym)
             steps = {(e.env.get(nm) - symv) if isinstance(e.env.get(nm), Lin) else None for e in normal}
             if len(steps) != 1:
                 continue
             step = next(iter(steps))
-            if step is None or not is_int_const(step) or ival(step) < 1 or not isinstance(pre.get(nm), Lin):
+            if step is None or not is_int_const(step) or ival(step) == 0 or not _intlike(pre.get(nm)):
                 continue
-            hi = None
-            if isinstance(t, tuple) and t[:1] == ("not",) and isinstance(t[1], tuple) and t[1][:2] == ("cmp", "GtE") and t[1][2] == symv:
-                hi = t[1][3]                    # c < hi
-            elif isinstance(t, tuple) and t[:2] == ("cmp", "GtE") and t[3] == symv and isinstance(t[2], Lin):
-                hi = t[2] + 1                   # c <= hi - 1
-            if not isinstance(hi, Lin) or any("@L%d" % lid in show(a) for a in hi.t):
+            # the test as a bound on the counter:  c < hi  (counting up)  or  c >= lo  (counting down)
+            lt = ge = None
+            if isinstance(t, tuple) and t[:1] == ("not",) and isinstance(t[1], tuple) and t[1][:2] == ("cmp", "GtE") \
+                    and isinstance(t[1][2], Lin) and isinstance(t[1][3], Lin):
+                a, b = t[1][2], t[1][3]                      # a < b
+                if a.t.get(sym) == 1 and sym not in b.t:
+                    lt = b - (a - symv)
+                elif b.t.get(sym) == 1 and sym not in a.t:
+                    ge = a - (b - symv) + 1
+            elif isinstance(t, tuple) and t[:2] == ("cmp", "GtE") and isinstance(t[2], Lin) and isinstance(t[3], Lin):
+                a, b = t[2], t[3]                            # a >= b
+                if b.t.get(sym) == 1 and sym not in a.t:
+                    lt = a - (b - symv) + 1
+                elif a.t.get(sym) == 1 and sym not in b.t:
+                    ge = b - (a - symv)
+            bound = lt if ival(step) > 0 else ge
+            if not isinstance(bound, Lin) or any("@L%d" % lid in show(a_) for a_ in bound.t):
                 continue
-            wev.d["iter"] = ("range", pre[nm], hi, step)
-            wev.d["target"] = symv
-            wev.d["counter"] = nm
+            if ival(step) > 0:
+                wev.d["iter"] = ("range", lin(pre[nm]), bound, step)
+                wev.d["target"] = symv
+                wev.d["counter"] = nm
+            else:
+                wev.d["down"] = (nm, lin(pre[nm]), bound, -ival(step))        # c = pre; while c >= bound: ...; c -= k
             return
 
     # ------------------------------------------------------------------------------------------------------------ expressions
@@ -2388,6 +2522,8 @@ class Engine:
             return lin(("dim", origin(base[2][0]), ival(idx)))
         if isinstance(base, tuple) and base and base[0] == "tuple" and is_int_const(idx) and -len(base[1]) <= ival(idx) < len(base[1]):
             return base[1][ival(idx)]
+        if isinstance(base, tuple) and base[:1] == ("obj",) and is_int_const(idx) and -len(base[2]) <= ival(idx) < len(base[2]):
+            return base[2][ival(idx)][1]
         col = None
         full = ("sl", Lin(), ("k", None), Lin(c=1))
         if isinstance(idx, tuple) and idx[:1] == ("tuple",) and len(idx[1]) == 2 and idx[1][0] == full and is_int_const(idx[1][1]):
@@ -2591,6 +2727,9 @@ class Engine:
                     else:
                         v = vals[i]
                         role = role_of(argnodes[i]) if argnodes and i < len(argnodes) else "expr"
+                if v is not None and it[1].canon() == "s" and self.is_str(v):
+                    parts.extend(as_S(v).p)                 # "%s" % text
+                    continue
                 parts.append(("fv", it[1].canon(), v, role))
             elif it[0] == "rep":
                 state["starred"] = True
@@ -2622,6 +2761,8 @@ class Engine:
                 mc = self.module_const(node.id)
                 if mc is not None:
                     return mc
+                if node.id in self.classes and self.follow is not None:
+                    return ("class", node.id)
             if node.id in ("None", "True", "False"):
                 return ("k", {"None": None, "True": True, "False": False}[node.id])
             return ("sym", node.id)
@@ -2655,6 +2796,10 @@ class Engine:
                 if root not in st.env:
                     return ("sym", d)
             base = self.ev(node.value, st)
+            if isinstance(base, tuple) and base[:1] == ("obj",):
+                for k_, v_ in base[2]:
+                    if k_ == node.attr:
+                        return v_
             if node.attr == "T":
                 return ("op", "T", (base,))
             if node.attr == "size" and not isinstance(base, S):
@@ -2950,6 +3095,8 @@ class Engine:
             return args[0] if not isinstance(args[0], (Lin, S)) else ("not", ("cmp", "Eq", Lin(), args[0])) if isinstance(args[0], Lin) else ("k", bool(args[0].p))
         if name == "map" and nargs >= 2 and not kws and isinstance(args[0], tuple) and args[0][:1] == ("attr",) and args[0][2] == "format" and self.is_str(args[0][1]):
             # map(template.format, a, b)  is  (template.format(x, y) for x, y in zip(a, b))
+            if all(conc(a) for a in args[1:]) and len({len(a[1]) for a in args[1:]}) == 1:
+                return ("tuple", tuple(self.format(as_S(args[0][1]), [a[1][i] for a in args[1:]], {}, node, st) for i in range(len(args[1][1]))))
             self.loopseq += 1
             lid = self.loopseq
             k = ("sym", f"<k>@L{lid}")
@@ -2961,6 +3108,10 @@ class Engine:
             if isinstance(args[0], S):
                 return args[0]
             return S((("fv", "", args[0], role_of(node.args[0])),))
+        if isinstance(node.func, ast.Name):
+            bound = st.env.get(node.func.id)
+            if isinstance(bound, tuple) and bound[:1] == ("attr",) and bound[2] == "format" and self.is_str(bound[1]):
+                return self.format(as_S(bound[1]), args, kws, node, st)          # fmt = "{:16d}".format ... fmt(x)
         if attr == "format" and recv is None and name is not None:
             recv = self.ev(node.func.value, st)
         if attr == "format" and recv is not None and self.is_str(recv):
@@ -2988,6 +3139,8 @@ class Engine:
                     return S(parts)
                 if isinstance(x, tuple) and x and x[0] == "comp":
                     return S((("join", recv.text(), x),))
+        if attr == "_replace" and isinstance(recv, tuple) and recv[:1] == ("obj",) and not args:
+            return ("obj", recv[1], tuple((k_, kws.get(k_, v_)) for k_, v_ in recv[2]))
         if attr == "transpose" and recv is not None and not args:
             return ("op", "T", (recv,))
         if name in ("np.transpose", "numpy.transpose") and nargs == 1:
@@ -3025,6 +3178,9 @@ class Engine:
             if n is not None:
                 return n
             return lin(("len", v))
+        if isinstance(v, tuple) and v[:1] == ("range",) and is_int_const(v[3]) and ival(v[3]) > 0:
+            k = ival(v[3])
+            return mk_min([Lin(), floordiv(lin(v[2]) - lin(v[1]) + (k - 1), k)], st.facts, "max")      # len(range(lo, hi, k)) = max(0, ceil((hi - lo) / k))
         if isinstance(v, tuple) and v[:2] == ("op", "T") and len(v[2]) == 1:
             return lin(("dim", origin(v[2][0]), 1))         # the rows of m.T are the columns of m
         if isinstance(v, tuple) and v and v[0] == "elem" and isinstance(v[2], Lin):
@@ -3097,6 +3253,21 @@ class Engine:
         argnodes = list(node.args)
         parts = []
         state = {"i": 0, "starred": False}
+        # text + k copies of one opaque template (head + form * k + "\n") given k * m values: each copy renders m of them, in order
+        subs = [it for it in items if it[0] == "sub"]
+        if subs and all(it[0] in ("text", "sub") for it in items) and len({it[1] for it in subs}) == 1 and not kws and args \
+                and len(args) % len(subs) == 0 and not any(isinstance(a, tuple) and a[:1] == ("star",) for a in args):
+            m_ = len(args) // len(subs)
+            i_ = 0
+            for it in items:
+                if it[0] == "text":
+                    parts.append(("lit", it[1]))
+                else:
+                    parts.append(("fmt", it[1], tuple(args[i_:i_ + m_])))
+                    i_ += m_
+            res = S(parts)
+            self.emit(st, "format", node, template=tmpl, items=items, args=args, nfields=nfields, nargs=Lin(c=len(args)), value=res)
+            return res
 
         def bind(items):
             for it in items:
@@ -3128,6 +3299,9 @@ class Engine:
                         for a_ in tail.strip(".").split("."):
                             v = ("attr", v, a_)
                         role = "expr"
+                    if v is not None and it[1] is not None and it[1].text in ("", "s") and self.is_str(v):
+                        parts.extend(as_S(v).p)             # a string put into a plain field is that string (it may itself be a template)
+                        continue
                     parts.append(("fv", it[1].text if it[1] is not None else None, v, role))
                 elif it[0] == "sub":
                     parts.append(("fmt", it[1], ()))
